@@ -1,143 +1,248 @@
-"""C20: bounded-exhaustive family of nested register-map layouts (address decode through RegFile nesting).
+"""C20: bounded-exhaustive family of nested register-map layouts (address decode + per-instance notifications).
 
-A tree is   root(AddrMap) -> [File@o1 -> [File@o2 ->]] leaf@o3   with an optional sentinel MemWord directly behind the
-member of every level (a sentinel detects an object that claims addresses past its end or that is placed at the wrong
-absolute address because then it collides with / hides the sentinel).
+A tree is a chain   root(AddrMap) -> [RegFile -> [RegFile -> [RegFile ->]]] leaf .  At every level the member may be
+instantiated TWICE (flag d: the same specialised class at `off` and directly behind it - repeated types) and may be
+followed by a sentinel MemWord (flag s: detects objects that claim addresses past their end / sit at a wrong address).
 
-    leaf kinds   W  reg32.MemWord                                  1 word
-                 G  reg32.Register{MemField[15:0], MemField[31:16]} 1 word
-                 A  reg32.Array[reg32.MemWord, o:o+8:4]             2 words
-                 R  reg32.AddrRange window, 3 words (range-compare decode), handler: read = tag | relative address,
-                    write records the relative address and the strobed merge of the data
+    leaf kinds   W    reg32.MemWord                                                1 word
+                 G    reg32.Register{MemField[15:0], MemField[31:16]}               1 word
+                 N    reg32.Register{MemField[31:0], PushOnNotify.Write, PushOnNotify.Read}   1 word, both pulses on ports
+                 R    reg32.AddrRange window, 3 words (range-compare decode); handler: read = tag | relative address,
+                      write records the relative address and the strobed merge of the data
+                 A<e><step>  reg32.Array[E, off : off+2*step : step]  two elements, step in {4, 8, 12, 16}
+                      e = w: E = MemWord,  n: E = the N register,  f: E = RegFile{N @0, MemWord @4} (2 words, step >= 8)
     offsets      root level {0, 4, 8, 16}, inner levels {0, 4, 8}
-    depth        1 (leaf in the root), 2 (one RegFile), 3 (RegFile inside RegFile), 4 (three nested RegFiles)
 
-Code of a tree (also its identity in finding keys):  e.g.  "F16s.F4s.A8s"  = RegFile at 0x10 (+sentinel behind it in the
-root) containing a RegFile at +4 (+sentinel) containing an Array at +8 (+sentinel); "W4s" = MemWord at 4 in the root.
+Code of a tree (also its identity in finding keys): levels joined by '.', each level `<kind>@<offset><flags>`, e.g.
+    "F@16s.F@4sd.An8@8s"   RegFile at 0x10 (+sentinel) containing TWO instances of a RegFile at +4 / +4+size (+sentinel),
+                           each containing an Array of two N registers at +8, +16 (+sentinel)
 
 The documented absolute address of every register is computed here, independently of cohdl, as the sum of the offsets
-on the path from the root (reg.pyi: offsets are relative to the parent).  Address width 7 (32 words): every word address
-that is not listed is unmapped.
+on the path from the root (reg.pyi: offsets are relative to the parent; array element k at start + k*step).  Address
+width 8 (64 words): every word address that is not listed is unmapped (including the gaps of sparse arrays).
 """
 from __future__ import annotations
 
 import itertools
+import re
 
 from .c20_layouts import HEADER
 
-LEAF_WORDS = {"W": 1, "G": 1, "A": 2, "R": 3}
 ROOT_OFFSETS = (0, 4, 8, 16)
 INNER_OFFSETS = (0, 4, 8)
-ADDR_WIDTH = 7
-READ_TAG = 0xC0DE0000 >> ADDR_WIDTH << ADDR_WIDTH  # low ADDR_WIDTH bits carry the relative address
+ADDR_WIDTH = 8
+READ_TAG = 0xC0DE0000
+SIMPLE = ("W", "G", "N", "R")
+ARRAYS = tuple(f"A{e}{st}" for e, steps in (("w", (4, 8, 12)), ("n", (4, 8, 12))) for st in steps)
+# arrays of register files (A f <step>) can be generated but are not part of the families: cohdl rejects them
+# (Array._impl_flatten does not descend into RegFile elements) - a rejection, not a violation
+FILE_ARRAYS = ("Af8", "Af12", "Af16")
+
+_PART = re.compile(r"^(F|W|G|N|R|A[wnf]\d+)@(\d+)(s?)(d?)$")
 
 
-def codes(depths=(1, 2, 3), root_offsets=ROOT_OFFSETS, inner_offsets=INNER_OFFSETS, sentinels="all", kinds="WGAR"):
-    """sentinels: 'all' -> every level has its sentinel; 'any' -> every subset of inner-level sentinels"""
+def leaf_size(kind):
+    if kind in ("W", "G", "N"):
+        return 4
+    if kind == "R":
+        return 12
+    return 2 * int(kind[2:])
+
+
+def chain(offs, leaf, s=None, d=None):
+    """code of the chain with member offsets `offs` (root first), leaf kind, sentinel flags s and dup flags d per level"""
+    n = len(offs)
+    s = s or (1,) * n
+    d = d or (0,) * n
+    parts = []
+    for i in range(n):
+        k = leaf if i == n - 1 else "F"
+        parts.append(f"{k}@{offs[i]}{'s' if s[i] else ''}{'d' if d[i] else ''}")
+    return ".".join(parts)
+
+
+def nesting_codes(depths, root_offsets=ROOT_OFFSETS, inner_offsets=INNER_OFFSETS, kinds=("W", "G", "R", "Aw4"), sentinels="all"):
     out = []
     for depth in depths:
-        files = depth - 1
-        for offs in itertools.product(root_offsets, *([inner_offsets] * files)):
+        for offs in itertools.product(root_offsets, *([inner_offsets] * (depth - 1))):
             for kind in kinds:
                 if sentinels == "all":
                     flagsets = [(1,) * depth]
                 else:
                     flagsets = [(1,) + f for f in itertools.product((0, 1), repeat=depth - 1)]
-                for flags in flagsets:
-                    parts = []
-                    for lvl in range(depth):
-                        k = kind if lvl == depth - 1 else "F"
-                        parts.append(f"{k}{offs[lvl]}{'s' if flags[lvl] else ''}")
-                    out.append(".".join(parts))
+                for fl in flagsets:
+                    out.append(chain(offs, kind, s=fl))
+    return out
+
+
+def array_codes(depths, root_offsets, inner_offsets):
+    """sparse / dense arrays of words, notifying registers and register files"""
+    out = []
+    for depth in depths:
+        for offs in itertools.product(root_offsets, *([inner_offsets] * (depth - 1))):
+            for kind in ARRAYS:
+                out.append(chain(offs, kind))
+    return out
+
+
+def repeat_codes(depths, root_offsets, inner_offsets, kinds=("N", "An8", "An4", "W")):
+    """the same specialised class instantiated twice at one level of the chain"""
+    out = []
+    for depth in depths:
+        for offs in itertools.product(root_offsets, *([inner_offsets] * (depth - 1))):
+            for kind in kinds:
+                for lvl in range(depth):
+                    d = tuple(1 if i == lvl else 0 for i in range(depth))
+                    out.append(chain(offs, kind, d=d))
     return out
 
 
 def quick_codes():
-    """complete: every tree of depth <= 3 (root -> file -> file -> leaf) with all sentinels; depth 4 (three nested
-    register files) with offsets {0, 8} at the root and {0, 4} at the inner levels"""
-    return codes((1, 2, 3)) + codes((4,), root_offsets=(0, 8), inner_offsets=(0, 4))
+    """complete strata:
+    nesting  every chain of depth <= 3 over {W,G,R,Aw4} with all offsets, depth 4 with offsets {0,8} / {0,4}
+    arrays   every array kind (elements w/n, steps 4/8/12) at depth 1 (all root offsets) and depth 2 ({0,8} x {0,4,8})
+    repeats  one duplicated level, depth 2 and 3, offsets {0,8} / {0,4}, leaf kinds {N, An8, An4, W}"""
+    out = nesting_codes((1, 2, 3)) + nesting_codes((4,), (0, 8), (0, 4))
+    out += array_codes((1,), ROOT_OFFSETS, ()) + array_codes((2,), (0, 8), INNER_OFFSETS)
+    out += repeat_codes((2, 3), (0, 8), (0, 4))
+    return _valid(out)
 
 
 def thorough_codes():
-    """depth <= 3 with every subset of inner sentinels, depth 4 with the full offset alphabet"""
-    return codes((1, 2, 3), sentinels="any") + codes((4,))
+    out = nesting_codes((1, 2, 3), sentinels="any") + nesting_codes((4,))
+    out += array_codes((1, 2), ROOT_OFFSETS, INNER_OFFSETS) + array_codes((3,), (0, 8), (0, 4))
+    out += repeat_codes((1, 2, 3), ROOT_OFFSETS, INNER_OFFSETS) + repeat_codes((4,), (0, 8), (0, 4), kinds=("N", "An8"))
+    return _valid(out)
+
+
+def _valid(codes):
+    seen = set()
+    out = []
+    for c in codes:
+        if c in seen:
+            continue
+        seen.add(c)
+        if extent(c) <= (1 << ADDR_WIDTH):
+            out.append(c)
+    return out
 
 
 def parse(code):
     lv = []
     for part in code.split("."):
-        kind = part[0]
-        s = part.endswith("s")
-        off = int(part[1:-1] if s else part[1:])
-        lv.append((kind, off, s))
+        m = _PART.match(part)
+        if not m:
+            raise ValueError(f"bad tree code part {part!r}")
+        lv.append((m.group(1), int(m.group(2)), bool(m.group(3)), bool(m.group(4))))
     return lv
+
+
+def _sizes(lv):
+    """member_size[i]: size of ONE instance of the member of level i; cont_size[i]: size of container i (i>=1)"""
+    depth = len(lv)
+    member_size = [0] * depth
+    cont_size = [0] * (depth + 1)
+    member_size[depth - 1] = leaf_size(lv[-1][0])
+    for i in range(depth - 1, -1, -1):
+        kind, off, s, d = lv[i]
+        cont_size[i] = off + member_size[i] * (2 if d else 1) + (4 if s else 0)
+        if i > 0:
+            member_size[i - 1] = cont_size[i]
+    return member_size, cont_size
+
+
+def extent(code):
+    return _sizes(parse(code))[1][0]
 
 
 def build(code):
     """-> layout dict (same format as c20_layouts) for the tree `code`"""
     lv = parse(code)
     depth = len(lv)
-    leaf_kind, leaf_off, leaf_s = lv[-1]
-    nested = depth > 1
+    leaf_kind = lv[-1][0]
+    member_size, cont_size = _sizes(lv)
     ports = []  # (name, type text)
     hook = []  # concurrent assignments in Map._impl_concurrent_
     cfg_lines = []
     regs = []
     classes = []
 
-    # ---- sizes (bytes) bottom-up: size of level i member, and of the file containing it
-    member_size = [0] * depth
-    file_size = [0] * depth  # file_size[i] = size of the file whose member is level i (i >= 1)
-    member_size[depth - 1] = 4 * LEAF_WORDS[leaf_kind]
-    for i in range(depth - 1, 0, -1):
-        kind, off, s = lv[i]
-        file_size[i] = off + member_size[i] + (4 if s else 0)
-        member_size[i - 1] = file_size[i]
-
-    # ---- absolute addresses: sum of the offsets along the path
-    base = [0] * depth  # absolute address of the container of level i
-    for i in range(1, depth):
-        base[i] = base[i - 1] + lv[i - 1][1]
-    leaf_abs = base[depth - 1] + leaf_off
-
-    # ---- python access path of the leaf inside Map
-    path = "self" + "".join(f".f{i + 1}" for i in range(depth - 1))
-
-    def word_reg(name, addr, cls, port):
-        return {"name": name, "addr": addr, "cls": cls, "notify": [],
+    def word_reg(name, addr, port):
+        return {"name": name, "addr": addr, "cls": "MemWord", "notify": [],
                 "fields": [{"name": "raw", "hi": 31, "lo": 0, "kind": "mem", "port": port, "default": 0}]}
 
-    # ---- leaf
-    if leaf_kind == "W":
-        leaf_type = "reg32.MemWord"
-        ports.append(("o_leaf", "BitVector[32]"))
-        hook.append(f"self._e.o_leaf <<= {path}.leaf.raw")
-        regs.append(word_reg("leaf", leaf_abs, "MemWord", "o_leaf"))
-    elif leaf_kind == "G":
+    def add_word(pid, path, addr):
+        ports.append((f"o_{pid}", "BitVector[32]"))
+        hook.append(f"self._e.o_{pid} <<= {path}.raw")
+        regs.append(word_reg(pid, addr, f"o_{pid}"))
+
+    def add_notify_reg(pid, path, addr):
+        ports.extend([(f"o_{pid}_d", "BitVector[32]"), (f"o_{pid}_wn", "Bit"), (f"o_{pid}_rn", "Bit")])
+        hook.append(f"self._e.o_{pid}_d <<= {path}.data.val()")
+        hook.append(f"self._e.o_{pid}_wn <<= bool({path}.wn)")
+        hook.append(f"self._e.o_{pid}_rn <<= bool({path}.rn)")
+        regs.append({"name": pid, "addr": addr, "cls": "Register", "notify": [("write", f"o_{pid}_wn"), ("read", f"o_{pid}_rn")],
+                     "fields": [{"name": "data", "hi": 31, "lo": 0, "kind": "mem", "port": f"o_{pid}_d", "default": 0}]})
+
+    def add_leaf(pid, path, addr):
+        k = leaf_kind
+        if k == "W":
+            add_word(pid, path, addr)
+        elif k == "G":
+            ports.extend([(f"o_{pid}_lo", "BitVector[16]"), (f"o_{pid}_hi", "BitVector[16]")])
+            hook.append(f"self._e.o_{pid}_lo <<= {path}.lo.val()")
+            hook.append(f"self._e.o_{pid}_hi <<= {path}.hi.val()")
+            regs.append({"name": pid, "addr": addr, "cls": "Register", "notify": [],
+                         "fields": [{"name": "lo", "hi": 15, "lo": 0, "kind": "mem", "port": f"o_{pid}_lo", "default": 0},
+                                    {"name": "hi", "hi": 31, "lo": 16, "kind": "mem", "port": f"o_{pid}_hi", "default": 0}]})
+        elif k == "N":
+            add_notify_reg(pid, path, addr)
+        elif k == "R":
+            ports.extend([(f"o_{pid}_la", f"Unsigned[{ADDR_WIDTH}]"), (f"o_{pid}_ld", "BitVector[32]")])
+            cfg_lines.append(f"{path}._config_(e.o_{pid}_la, e.o_{pid}_ld)")
+            regs.append({"name": pid, "addr": addr, "words": 3, "cls": "AddrRange", "notify": [], "read_tag": READ_TAG,
+                         "fields": [{"name": "la", "hi": ADDR_WIDTH - 1, "lo": 0, "kind": "win_addr", "port": f"o_{pid}_la", "default": 0},
+                                    {"name": "last", "hi": 31, "lo": 0, "kind": "win_data", "port": f"o_{pid}_ld", "default": 0}]})
+        else:  # array: element k at addr + k*step
+            e, step = k[1], int(k[2:])
+            for n in range(2):
+                ea = addr + n * step
+                ep = f"{path}[{n}]"
+                eid = f"{pid}_{n}"
+                if e == "w":
+                    add_word(eid, ep, ea)
+                elif e == "n":
+                    add_notify_reg(eid, ep, ea)
+                else:
+                    add_notify_reg(eid + "_r", ep + ".r", ea)
+                    add_word(eid + "_w", ep + ".w", ea + 4)
+
+    # ---- leaf classes
+    if leaf_kind == "G":
         classes.append('''
 class Rg(reg32.Register):
     lo: reg32.MemField[15:0, Null]
     hi: reg32.MemField[31:16, Null]
 ''')
-        leaf_type = "Rg"
-        ports += [("o_leaf_lo", "BitVector[16]"), ("o_leaf_hi", "BitVector[16]")]
-        hook.append(f"self._e.o_leaf_lo <<= {path}.leaf.lo.val()")
-        hook.append(f"self._e.o_leaf_hi <<= {path}.leaf.hi.val()")
-        regs.append({"name": "leaf", "addr": leaf_abs, "cls": "Register", "notify": [],
-                     "fields": [{"name": "lo", "hi": 15, "lo": 0, "kind": "mem", "port": "o_leaf_lo", "default": 0},
-                                {"name": "hi", "hi": 31, "lo": 16, "kind": "mem", "port": "o_leaf_hi", "default": 0}]})
-    elif leaf_kind == "A":
-        leaf_type = None  # annotation written specially
-        pn = "o_narr" if nested else "o_arr"
-        for k in range(2):
-            ports.append((f"{pn}{k}", "BitVector[32]"))
-            hook.append(f"self._e.{pn}{k} <<= {path}.leaf[{k}].raw")
-            regs.append(word_reg(f"leaf[{k}]", leaf_abs + 4 * k, "MemWord", f"{pn}{k}"))
-    else:  # R
+    if leaf_kind == "N" or leaf_kind[:2] in ("An", "Af"):
+        classes.append('''
+class Rn(reg32.Register):
+    data: reg32.MemField[31:0, Null]
+    wn: reg32.PushOnNotify.Write
+    rn: reg32.PushOnNotify.Read
+''')
+    if leaf_kind[:2] == "Af":
+        classes.append('''
+class Fe(reg32.RegFile, word_count=2):
+    r: Rn[0x0]
+    w: reg32.MemWord[0x4]
+''')
+    if leaf_kind == "R":
         classes.append(f'''
 class Win(reg32.AddrRange, word_count=3):
-    def _config_(self, e):
-        self._e = e
+    def _config_(self, o_la, o_ld):
+        self._o_la = o_la
+        self._o_ld = o_ld
         self._last = Signal[BitVector[32]](Null)
         self._la = Signal[Unsigned[{ADDR_WIDTH}]](Null)
 
@@ -149,50 +254,66 @@ class Win(reg32.AddrRange, word_count=3):
         self._last <<= mask.apply(self._last, data)
 
     def _impl_concurrent_(self):
-        self._e.o_win_addr <<= self._la
-        self._e.o_win_data <<= self._last
+        self._o_la <<= self._la
+        self._o_ld <<= self._last
 ''')
-        leaf_type = "Win"
-        ports += [("o_win_addr", f"Unsigned[{ADDR_WIDTH}]"), ("o_win_data", "BitVector[32]")]
-        cfg_lines.append(f"{path}.leaf._config_(e)")
-        regs.append({"name": "leaf", "addr": leaf_abs, "words": 3, "cls": "AddrRange", "notify": [], "read_tag": READ_TAG,
-                     "fields": [{"name": "la", "hi": ADDR_WIDTH - 1, "lo": 0, "kind": "win_addr", "port": "o_win_addr", "default": 0},
-                                {"name": "last", "hi": 31, "lo": 0, "kind": "win_data", "port": "o_win_data", "default": 0}]})
 
-    def leaf_annotation():
-        if leaf_kind == "A":
-            return f"    leaf: reg32.Array[reg32.MemWord, 0x{leaf_off:x}:0x{leaf_off + 8:x}:4]"
-        return f"    leaf: {leaf_type}[0x{leaf_off:x}]"
+    def leaf_type(off):
+        k = leaf_kind
+        if k == "W":
+            return f"reg32.MemWord[0x{off:x}]"
+        if k == "G":
+            return f"Rg[0x{off:x}]"
+        if k == "N":
+            return f"Rn[0x{off:x}]"
+        if k == "R":
+            return f"Win[0x{off:x}]"
+        e, step = k[1], int(k[2:])
+        et = {"w": "reg32.MemWord", "n": "Rn", "f": "Fe"}[e]
+        return f"reg32.Array[{et}, 0x{off:x}:0x{off + 2 * step:x}:{step}]"
 
-    # ---- containers, innermost first
+    # ---- container classes, innermost first
     for i in range(depth - 1, -1, -1):
-        kind, off, s = lv[i]
+        kind, off, s, d = lv[i]
         body = []
-        if i == depth - 1:
-            body.append(leaf_annotation())
-        else:
-            body.append(f"    f{i + 1}: F{i + 1}[0x{off:x}]")
+        for j in range(2 if d else 1):
+            o = off + j * member_size[i]
+            nm = f"m{i}" + ("b" if j else "")
+            body.append(f"    {nm}: " + (leaf_type(o) if i == depth - 1 else f"F{i + 1}[0x{o:x}]"))
         if s:
-            s_off = off + member_size[i]
-            body.append(f"    s{i}: reg32.MemWord[0x{s_off:x}]")
-            spath = "self" + "".join(f".f{j + 1}" for j in range(i))
-            ports.append((f"o_s{i}", "BitVector[32]"))
-            hook.append(f"self._e.o_s{i} <<= {spath}.s{i}.raw")
-            regs.append(word_reg(f"s{i}", base[i] + s_off, "MemWord", f"o_s{i}"))
+            body.append(f"    s{i}: reg32.MemWord[0x{off + member_size[i] * (2 if d else 1):x}]")
         if i == 0:
-            cls = "class Map(reg32.AddrMap):\n" + "\n".join(body) + "\n\n    def _config_(self, e):\n        self._e = e\n"
-            cls += "".join(f"        {l}\n" for l in cfg_lines)
-            cls += "\n    def _impl_concurrent_(self):\n" + "".join(f"        {l}\n" for l in hook)
+            classes.append("\nclass Map(reg32.AddrMap):\n" + "\n".join(body) + "\n@@MAPBODY@@")
         else:
-            cls = f"class F{i}(reg32.RegFile, word_count={file_size[i] // 4}):\n" + "\n".join(body) + "\n"
-        classes.append("\n" + cls)
+            classes.append(f"\nclass F{i}(reg32.RegFile, word_count={cont_size[i] // 4}):\n" + "\n".join(body) + "\n")
 
+    # ---- instances: absolute address = sum of the offsets along the path
+    def walk(i, path, pid, base):
+        kind, off, s, d = lv[i]
+        for j in range(2 if d else 1):
+            nm = f"m{i}" + ("b" if j else "")
+            a = base + off + j * member_size[i]
+            p2, id2 = f"{path}.{nm}", (f"{pid}_{nm}" if pid else nm)
+            if i == depth - 1:
+                add_leaf(id2, p2, a)
+            else:
+                walk(i + 1, p2, id2, a)
+        if s:
+            sid = f"{pid}_s{i}" if pid else f"s{i}"
+            add_word(sid, f"{path}.s{i}", base + off + member_size[i] * (2 if d else 1))
+
+    walk(0, "self", "", 0)
+
+    mapbody = "\n    def _config_(self, e):\n        self._e = e\n" + "".join(f"        {l.replace('self.', 'self.', 1)}\n" for l in cfg_lines)
+    mapbody += "\n    def _impl_concurrent_(self):\n" + "".join(f"        {l}\n" for l in hook)
     ent = f"\nclass T(axi.addr_map_entity(addr_width={ADDR_WIDTH})):\n"
     ent += "".join(f"    {n} = Port.output({t})\n" for n, t in ports)
     ent += "\n    def architecture(self):\n        self.interface_connection().connect_addr_map(Map(self))\n"
-    source = HEADER + "\n".join(classes) + "\n" + ent
+    source = (HEADER + "\n".join(classes) + "\n" + ent).replace("@@MAPBODY@@", mapbody)
     regs.sort(key=lambda r: r["addr"])
-    mapped = {r["addr"] + 4 * w for r in regs for w in range(r.get("words", 1))}
+    mapped = [r["addr"] + 4 * w for r in regs for w in range(r.get("words", 1))]
+    assert len(mapped) == len(set(mapped)), f"generator error: overlapping registers in {code}"
+    assert max(mapped) < (1 << ADDR_WIDTH), f"generator error: {code} exceeds the window"
     window = list(range(0, 1 << ADDR_WIDTH, 4))
     return {"name": "tree/" + code, "source": source, "regs": regs, "hw": [],
-            "unmapped": [a for a in window if a not in mapped], "window": window, "tree": code}
+            "unmapped": [a for a in window if a not in set(mapped)], "window": window, "tree": code}
